@@ -680,6 +680,16 @@ func (c *classifier) compute(v ssa.Value) cls {
 			}
 			return r
 		}
+		// so does a parameter of an unexported function of the evaluator's package that only takes forms apart
+		if m.formSplitter(fn) {
+			if args := m.w.callSiteArgs(x); len(args) > 0 {
+				r := clsNil
+				for _, a := range args {
+					r = joinCls(r, c.of(a))
+				}
+				return r
+			}
+		}
 		return clsUnknown
 	case *ssa.Phi:
 		r := clsNil
@@ -784,6 +794,24 @@ func (c *classifier) compute(v ssa.Value) cls {
 					}
 					return clsForm // empty literal
 				}
+				// any other struct literal (the parts a helper split a form into): join of its fields
+				if _, ok := cell.Type().(*types.Pointer).Elem().Underlying().(*types.Struct); ok {
+					r := clsNil
+					n := 0
+					for _, ref := range *cell.Referrers() {
+						if fa, ok := ref.(*ssa.FieldAddr); ok {
+							for _, uu := range *fa.Referrers() {
+								if s2, ok := uu.(*ssa.Store); ok && s2.Addr == ssa.Value(fa) {
+									n++
+									r = joinCls(r, c.of(s2.Val))
+								}
+							}
+						}
+					}
+					if n > 0 {
+						return r
+					}
+				}
 				r := clsNil
 				stores := m.e.storesTo(cell)
 				if stores == nil {
@@ -870,7 +898,7 @@ func (c *classifier) callResult(call *ssa.Call) cls {
 		return r
 	}
 	// closures of the evaluator (the try body runner) and evaluation helpers: join of their returns
-	if _, isHelper := m.helperSites[callee]; callee.Parent() != nil || isHelper {
+	if _, isHelper := m.helperSites[callee]; callee.Parent() != nil || isHelper || m.formSplitter(callee) {
 		r := clsNil
 		for _, b := range callee.Blocks {
 			if ret, ok := b.Instrs[len(b.Instrs)-1].(*ssa.Return); ok && len(ret.Results) > 0 && b != callee.Recover {
@@ -959,4 +987,17 @@ func (m *evalModel) regionBlocks(name string) []*ssa.BasicBlock {
 		}
 	}
 	return out
+}
+
+// formSplitter: an unexported top-level function of the evaluator's own package that makes no evaluating call
+// (it only takes forms apart or puts them together): its parameters stand for its call-site arguments and its
+// result for what it returns.
+func (m *evalModel) formSplitter(fn *ssa.Function) bool {
+	if fn == nil || fn.Parent() != nil || len(fn.Blocks) == 0 || fn.Pkg != m.EVAL.Pkg || fn.Object() == nil || fn.Object().Exported() || m.isCore(fn) {
+		return false
+	}
+	if _, isHelper := m.helperSites[fn]; isHelper {
+		return false
+	}
+	return !m.evalRelevant(fn, map[*ssa.Function]bool{})
 }
